@@ -57,10 +57,19 @@ pub struct Case {
 impl Case {
     pub fn new() -> Case {
         let epoch = rec::begin_case();
+        let executor = FsmExecutor::new_without_io_processor();
+        // the ECMAScript data model is run in its strict mode, like the repository's own W3C test
+        // configuration (test/w3c/test_config.json: "datamodel:ecma:strict")
+        executor
+            .state
+            .lock()
+            .unwrap()
+            .datamodel_options
+            .insert("ecma:strict".to_string(), "".to_string());
         Case {
             epoch,
             actions: rec::make_actions(epoch),
-            executor: FsmExecutor::new_without_io_processor(),
+            executor,
         }
     }
 
@@ -98,6 +107,14 @@ impl Default for Case {
 pub const WAIT: Duration = Duration::from_secs(20);
 
 impl Running {
+    /// waits until everything sent so far (`sent` harness events + announced self-sends) is consumed
+    pub fn quiescent(&mut self, sent: u64) -> Wait {
+        let r = rec::wait_quiescent(self.tracer, sent, WAIT);
+        if r == Wait::Idle {
+            rec::sample_config(self.tracer, &self.session.global_data, "idle");
+        }
+        r
+    }
     /// waits for the next idle point (or the end of the session)
     pub fn next_idle(&mut self) -> Wait {
         let r = rec::wait_idle(self.tracer, self.idles_seen + 1, WAIT);
@@ -152,6 +169,12 @@ pub struct RunResult {
 
 /// One event per completed macrostep (idle barrier), then cancel.
 pub fn run_doc(xml: &str, path: &[String]) -> RunResult {
+    run_doc_mode(xml, path, false)
+}
+
+/// `prequeue`: the document's global script contains `gate(1)`; all events are queued while the
+/// session waits there, i.e. before the first macrostep.
+pub fn run_doc_mode(xml: &str, path: &[String], prequeue: bool) -> RunResult {
     let mut case = Case::new();
     let fsm = match parse_xml(xml) {
         Ok(f) => f,
@@ -169,27 +192,46 @@ pub fn run_doc(xml: &str, path: &[String]) -> RunResult {
     let mut r = case.start(fsm);
     let mut status = RunStatus::Completed;
     let mut ended = false;
-    match r.next_idle() {
-        Wait::Idle => {}
-        Wait::Finished => ended = true,
-        Wait::Timeout => status = RunStatus::TimedOut("start".into()),
-    }
-    if status == RunStatus::Completed && !ended {
-        for (i, e) in path.iter().enumerate() {
-            r.send(e);
-            match r.next_idle() {
+    if prequeue {
+        if !rec::wait_gate(1, 1, WAIT) {
+            status = RunStatus::TimedOut("gate".into());
+        } else {
+            for e in path {
+                rec::harness_note(&format!("SEND {}", e));
+                r.send(e);
+            }
+            rec::release_gate(1, 0);
+            match r.quiescent(path.len() as u64) {
                 Wait::Idle => {}
-                Wait::Finished => {
-                    ended = true;
-                    break;
-                }
-                Wait::Timeout => {
-                    status = RunStatus::TimedOut(format!("event #{} {}", i, e));
-                    break;
+                Wait::Finished => ended = true,
+                Wait::Timeout => status = RunStatus::TimedOut("prequeued events".into()),
+            }
+        }
+    } else {
+        match r.quiescent(0) {
+            Wait::Idle => {}
+            Wait::Finished => ended = true,
+            Wait::Timeout => status = RunStatus::TimedOut("start".into()),
+        }
+        if status == RunStatus::Completed && !ended {
+            for (i, e) in path.iter().enumerate() {
+                rec::harness_note(&format!("SEND {}", e));
+                r.send(e);
+                match r.quiescent(i as u64 + 1) {
+                    Wait::Idle => {}
+                    Wait::Finished => {
+                        ended = true;
+                        break;
+                    }
+                    Wait::Timeout => {
+                        status = RunStatus::TimedOut(format!("event #{} {}", i, e));
+                        break;
+                    }
                 }
             }
         }
     }
+    let _ = ended;
     let mut panicked = false;
     if status == RunStatus::Completed {
         if !r.finish() {
